@@ -309,6 +309,17 @@ func (t *stringType) PType() px.Type {
 	return &TypeType{t}
 }
 
+// The constrained String types must not inherit PType: the receiver of the inherited method is the embedded
+// unconstrained String, so the type of String['a'] used as a value was Type[String], which Type[String['a']] rejects
+
+func (t *scStringType) PType() px.Type {
+	return &TypeType{t}
+}
+
+func (t *vcStringType) PType() px.Type {
+	return &TypeType{t}
+}
+
 func (t *stringType) Value() *string {
 	return nil
 }
